@@ -110,3 +110,20 @@ Theorem C11_every_offer_is_valid_in_every_run_flex :
     forall tr, In tr (r_offers r) -> is_transition_valid (r_x r) tr = Ok true.
 Proof. intros. eapply C11_every_offer_is_valid_in_every_run_every_instance; eauto. Qed.
 Print Assumptions C11_every_offer_is_valid_in_every_run_flex.
+
+(* the readiness test ("at the position the buffer's discipline releases, in a post- or standalone buffer"), its negation
+   used as the early-transport test, and the transportability test of the model ARE the implementation's: regenerated from
+   buffer_type_utils.job_in_correct_buffer_for_pickup / is_job_ready_for_pickup_from_postbuffer and
+   possible_transition_utils.is_early_transport / is_transportable on every run *)
+Theorem C11_readiness_is_the_code's : forall i x jn jb, gen_is_ready i x jn jb = is_ready i x jn jb.
+Proof. exact gen_is_ready_eq. Qed.
+Print Assumptions C11_readiness_is_the_code's.
+
+Theorem C11_early_transport_test_is_the_code's :
+  forall i x jn jb, gen_is_early i x jn jb = (r <- is_ready i x jn jb ;; Ok (negb r)).
+Proof. exact gen_is_early_eq. Qed.
+Print Assumptions C11_early_transport_test_is_the_code's.
+
+Theorem C11_transportability_is_the_code's : forall i x jb, gen_is_transportable i x jb = is_transportable i x jb.
+Proof. exact gen_is_transportable_eq. Qed.
+Print Assumptions C11_transportability_is_the_code's.
